@@ -36,7 +36,7 @@ var c10FaultKinds = []string{"ok", "ok", "ok", "notfound", "error", "delay", "tr
 func c10(r *hx.Run) {
 	r.MaxViol = 6 // violations here usually cost a watchdog period each
 	r.Level = "fault_enumeration"
-	r.Rule = "histories on 6 keys in a cache of 16 entries backed by a scripted store: steps drawn from {burst of 1-4 requests, clock advance, purge, eviction by filler keys}; every store call (get/set/delete) draws a fault from {ok, not-found, error, delay 1-30 ms, value truncated at a random offset, random bytes, bit flip in the first 64 bytes, bit flip elsewhere, status field overwritten (0,1,4,99), empty value}. The origin is always healthy. Judged per request: 200 with the key's own intact body, a hit only of a still-valid version, a memory-resident hit without any store read, the request that received an undecodable record is an ordinary fetching miss, nobody stranded (hooked entry state at quiescence). A garbled value that still decodes (the harness decodes it itself) only taints the key: errors and hangs are judged, altered content is the known class undetectable-corruption. Directed: the store goes down after start-up (every call fails) - responses are cached memory-only and a purge still empties the memory. Finally the configured store cannot be opened at all (badger directory below a regular file, redis nobody listens on): the cache serves memory-only. Non-trivial = history in which >=1 injected fault reached a store call of a judged key; distinct = fault kind x operation x step kind."
+	r.Rule = "histories on 6 keys in a cache of 16 entries backed by a scripted store: steps drawn from {burst of 1-4 requests, clock advance, purge, eviction by filler keys}; every store call (get/set/delete) draws a fault from {ok, not-found, error, delay 1-30 ms, value truncated at a random offset, random bytes, bit flip in the first 64 bytes, bit flip elsewhere, status field overwritten (0,1,4,99), empty value}. The origin is always healthy. Judged per request: 200 with the key's own intact body, a hit only of a still-valid version, a memory-resident hit without any store read, the request that received an undecodable record is an ordinary fetching miss, nobody stranded (hooked entry state at quiescence). A garbled value that still decodes (the harness decodes it itself) only taints the key: errors and hangs are judged, altered content is the known class undetectable-corruption. Directed: the store goes down after start-up (every call fails) - responses are cached memory-only, a purge still empties the memory, and when the store comes back nothing that was purged may be written to it afterwards (watched for 1.3 s). Finally the configured store cannot be opened at all (badger directory below a regular file, redis nobody listens on): the cache serves memory-only. Non-trivial = history in which >=1 injected fault reached a store call of a judged key; distinct = fault kind x operation x step kind."
 	r.Assume = []string{"virtual clock; -race build", "a purge whose store delete failed may resurrect the old record later (not judged)", "without an integrity field pike cannot detect corruption that leaves a record well-formed"}
 	rnd := rand.New(rand.NewSource(r.Seed))
 	storeURL := fmt.Sprintf("mem://c10/%d", r.Seed)
